@@ -212,7 +212,12 @@ def gen_param_write(kind: str, rng) -> tuple:
             return name, float(np.round(rng.uniform(0.5, 2.0), 3))
         return name, float(np.round(10 ** rng.uniform(1, 2), 3))
     if kind == "behavior":
-        name = ["thickness", "planeStress"][int(rng.integers(2))]
+        name = ["thickness", "planeStress", "el.E", "el.v"][int(rng.integers(4))]
+        if name == "el.E":
+            # the elastic law the behaviour was built with is an object of its own, with public parameters
+            return name, float(np.round(10 ** rng.uniform(2, 3), 3))
+        if name == "el.v":
+            return name, float(np.round(rng.uniform(0.1, 0.35), 3))
         return (name, float(np.round(rng.uniform(0.5, 2.0), 3))) if name == "thickness" else (name, bool(rng.integers(2)))
     if kind in ("wf_scalar", "wf_vector"):
         return "thickness", float(np.round(rng.uniform(0.5, 2.0), 3))
@@ -224,6 +229,9 @@ def write_param(model, kind: str, params: dict, name: str, val) -> None:
     if kind == "pf" and name.startswith("mat."):
         setattr(model.material, name[4:], val)
         params[name[4:]] = val
+    elif kind == "behavior" and name.startswith("el."):
+        setattr(model.elastic, name[3:], val)
+        params[name[3:]] = val
     elif kind == "pf" and name == "A":
         dim = model.dim
         A = np.eye(dim)
